@@ -2,6 +2,7 @@ SPECIFICATION TSpec
 CONSTANTS
   MaxRows = 0
   Depth = 0
+  Ordered = FALSE
   TypeNames = {}
 POSTCONDITION TraceAccepted
 CHECK_DEADLOCK FALSE
